@@ -3,7 +3,6 @@ import re, itertools
 from core import *  # noqa
 from roles import *  # noqa
 import roles, shared, symex, predeval
-from rules_C01 import find_respond_impl
 
 EXPLANATION = (
     "Decision-table extraction, sibling agreement and must-pass-through on the MIR of raw_print / write_message_header / respond_impl: the body "
@@ -62,248 +61,136 @@ class Edges(dict):
 def run(ctx):
     facts = ctx.facts
     roles.bind(facts)
-    f = raw_print = roles.inherent(facts, RESP, "raw_print")
-    wmh = facts.fn("response::write_message_header")
-    respond_impl = find_respond_impl(facts)
+    import response_rules as RSP, request_rules as RR, absint
+    import queue_rules as Q
+    M = RSP.resp_model(facts)
+    f = M.f
+    raw_print = M.rp
+    wmh = M.head_writer
     ctx.touch(f)
+    where = "%s:%d" % (raw_print.file, raw_print.line)
 
-    # ---- C04.1 body suppression
-    # the final `do_not_send_body`: a multi-definition bool local; every construct that puts body bytes (or chunk framing)
-    # on the wire -- io::copy and the construction of the chunk Encoder, whose Drop writes the last-chunk -- must sit on the
-    # not-suppressed edge of a test of that local
-    copies = [bb for bb, t in f.calls() if call_matches(t, r"^std::io::copy(::<|$)")]
-    encs0 = [bb for bb, t in f.calls() if call_matches(t, r"chunked_transfer::Encoder::<W>::(new|with_chunks_size)$")]
-    ctx.require(copies, "C04.1: no io::copy in raw_print")
-    dom = f.dominators(False)
-
-    def flag_of_switch(b):
-        bs = bool_switch(f, b)
-        if not bs:
-            return None
-        l = op_local(bs[0])
-        if l is None:
-            return None
-        src, neg = l, False
-        d = f.single_def(l)
-        while d and d[0] == "assign":
-            if d[3]["rv"] == "use" and op_local(d[3]["op"]) is not None:
-                src = op_local(d[3]["op"])
-            elif d[3]["rv"] == "unop" and d[3]["op"] == "Not" and op_local(d[3]["a"]) is not None:
-                src = op_local(d[3]["a"]); neg = not neg
-            else:
-                break
-            d = f.single_def(src)
-        defs = [x for x in f.defs().get(src, []) if x[0] == "assign"]
-        if len(defs) >= 2 and f.local_ty(src) == "bool" and src not in f.flag_locals():
-            return src, (bs[1] if neg else bs[2])      # (flag local, edge taken when the body is sent)
-        return None
-
-    final = None
-    send_edges = {}
-    for c in copies:
-        for b in sorted(dom[c], key=lambda b: -len(dom[b])):
-            r = flag_of_switch(b)
-            if r and f.dominates(r[1], c, unwind=False):
-                final = r[0] if final is None else final
-                send_edges[b] = r[1]
-                break
-    ctx.ob("C04.1", "%s|suppression-flag" % f.id, "(anchor) raw_print decides with one flag whether body bytes are sent", final is not None, "%s:%d" % (f.file, f.line), nontrivial=False)
-    if final is None:
-        ctx.ob("C04.1", "%s|body-only-when-not-suppressed" % f.id, "body bytes are copied only on the branch where the suppression flag is false", False, f.loc(copies[0]), "no dominating test of a suppression flag")
-        return {}
-    all_tests = {b: flag_of_switch(b) for b in sorted(f.live_blocks()) if flag_of_switch(b) and flag_of_switch(b)[0] == final}
-    for i, site in enumerate(sorted(copies + encs0)):
-        ok = any(f.dominates(r[1], site, unwind=False) for r in all_tests.values())
-        what = "io::copy" if site in copies else "chunk encoder"
-        ctx.ob("C04.1", "%s|body-only-when-not-suppressed|%s|%d" % (f.id, what, i),
-               "body bytes and chunk framing (the encoder writes a last-chunk when dropped) are produced only on the branch where the suppression flag is false",
-               ok, f.loc(site), None if ok else "%s is reachable although the body is suppressed (HEAD, 1xx, 204, 304)" % what)
-    b, r0 = sorted(all_tests.items())[0]
-    bs = bool_switch(f, b)
-    send_edge = r0[1]
-    neg = send_edge == bs[1]
-    # walk from the first block that decides the flag to its first use
-    def_blocks = {x[1] for x in f.defs().get(final, []) if x[0] == "assign"}
-    start = min(set.intersection(*[dom[d] for d in def_blocks]), key=lambda x: -len(dom[x]))
-    # innermost common dominator that is a branch
-    cands = [x for x in set.intersection(*[dom[d] for d in def_blocks]) if f.term(x)["t"] == "switch"]
-    start = max(cands, key=lambda x: len(dom[x]))
-    use_blocks = {u[1] for u in f.uses().get(final, [])}
-    bad = []
+    STAT = [99, 100, 199, 200, 203, 204, 205, 303, 304, 305, 500]
+    bad1, bad2, bad3, bad5, bad_order = [], [], [], [], []
     rows = 0
-    for dns, st in itertools.product([False, True], [0, 99, 100, 101, 150, 199, 200, 201, 203, 204, 205, 206, 303, 304, 305, 404, 500, 65535]):
-        env = {("arg", 5): dns, ("arg", 1, "status_code", "0"): st}
-        asg = {}
-        def atom_of(bb):
-            t = f.term(bb)
-            if t["t"] != "switch":
-                return None
-            o = f.origin(t["discr"])
-            try:
-                v = predeval.ev(f, o, env)
-            except predeval.Unknown as e:
-                raise CheckerError("C04.1: cannot evaluate guard at %s: %s (%s)" % (f.loc(bb), e, origin_str(o)))
-            asg["g%d" % bb] = v
-            if t["dty"] == "bool":
-                bs2 = bool_switch(f, bb)
-                return ("g%d" % bb, {True: bs2[1], False: bs2[2]})
-            return ("g%d" % bb, Edges({v2: b2 for v2, b2 in t["targets"]}, t["otherwise"]))
-        val = []
-        def on_block(bb):
-            for s in f.stmts(bb):
-                if s["s"] == "assign" and s["lhs"] == {"l": final, "p": []}:
-                    r = s["rhs"]
-                    if r["rv"] == "use":
-                        c = op_const(r["op"])
-                        val.append(c if c is not None else predeval.ev(f, f.origin(r["op"]), env))
-        stop = {x for d in def_blocks for x in f.succs(d, False)} - def_blocks
-        end, visited = shared.walk_decision(f, start, atom_of, asg, stop, on_block)
+    for status, dlen, dns, te, up in itertools.product(STAT, [None, 0, 7], [False, True], ["Identity", "Chunked"], [False, True]):
+        ps = M.run(status, dlen, dns, te, up)
         rows += 1
-        ctx.paths += 1
-        got = val[-1] if val else None
-        want = dns or (100 <= st <= 199) or st in (204, 304)
-        if got != want:
-            bad.append((dns, st, got, want))
-    ctx.counts["C04.1 rows"] = rows
-    ctx.ob("C04.1", "%s|suppression-table" % f.id, "the body is suppressed exactly for: the caller's request (HEAD), status 100..=199, 204, 304", not bad, f.loc(start), None if not bad else str(bad[:5]))
-    # respond_impl passes `method == Head`
-    g = respond_impl
-    rp = [(bb, t) for bb, t in g.calls() if call_matches(t, r"raw_print$")]
-    o = g.origin(rp[0][1]["args"][4])
-    ok = o[0] == "call" and re.search(r"PartialEq>::eq$", o[1]) is not None and "method" in origin_fields(o) and any(
-        (c and c[0] == "promoted" and shared.sym_const(c[1]) == ("variant", METHOD, "Head")) for c in [shared.const_of_origin(g, a) for a in o[2]])
-    ctx.ob("C04.1", "%s|head-suppresses" % g.id, "answering a HEAD request suppresses the body (do_not_send_body = method == Head)", ok, g.loc(rp[0][0]), origin_str(o))
-
-    # ---- C04.2 header arm <-> body arm agreement
-    te_local = None
-    wm = f.call_blocks(lambda t: call_is(t, wmh.id))
-    ctx.require(len(wm) == 1, "C04.2: write_message_header call")
-    def te_switches():
-        out = []
-        for bb in sorted(f.live_blocks()):
-            if f.blocks[bb]["cleanup"]:
-                continue
-            sw = switch_on_discr(f, bb)
-            if sw and sw[0].get("ty", "").startswith("std::option::Option<response::TransferEncoding>") and not sw[0]["pl"]["p"]:
-                out.append((bb, sw))
-        return out
-    tes = te_switches()
-    hdr_sw = [x for x in tes if wm[0] in f.reach([x[0]], unwind=False) and f.dominates(x[0], wm[0], unwind=False)]
-    body_sws = [x for x in tes if f.dominates(wm[0], x[0], unwind=False)]
-    ctx.ob("C04.2", "%s|two-matches" % f.id, "(anchor) the chosen coding is matched once for the framing header and once for the body", len(hdr_sw) >= 1 and len(body_sws) >= 1, "%s:%d" % (f.file, f.line), nontrivial=False)
-    if hdr_sw and body_sws:
-        hb = max(hdr_sw, key=lambda x: len(dom[x[0]]))
-        bbody = min(body_sws, key=lambda x: len(dom[x[0]]))
-        te_l = hb[1][0]["pl"]["l"]
-        def walk_te(start_bb, stop, te):
-            env = {}
-            def atom_of(bb):
-                sw = switch_on_discr(f, bb)
-                if sw and sw[0]["pl"]["l"] in (te_l, bbody[1][0]["pl"]["l"]):
-                    rv, m, otherwise, rest = sw
-                    if not rv["pl"]["p"]:
-                        v = "None" if te is None else "Some"
-                    else:
-                        v = te
-                    mm = dict(m)
-                    for r in rest:
-                        mm[r] = otherwise
-                    return ("te", {True: mm[v]})
-                bs2 = bool_switch(f, bb)
-                if sw and sw[0].get("adt") == "std::ops::ControlFlow":
-                    rv, m, otherwise, rest = sw
-                    return ("cf", {True: m.get("Continue", otherwise)})
-                if bs2 and op_local(bs2[0]) not in f.flag_locals():
-                    o = f.origin(bs2[0])
-                    # data_length >= 1 / suppression flag: take the "send" side
-                    if bb == b:
-                        return ("send", {True: send_edge})
-                    if o[0] == "call" and o[1].endswith("is_some") and f.term(bs2[2])["t"] == "call" and call_matches(f.term(bs2[2]), r"core::panicking::"):
-                        return ("is_some", {True: bs2[1]})     # assert!(x.is_some()): the failing side is a panic, not a behaviour
-                return None
-            asg = collections.defaultdict(lambda: True)
-            paths = shared.walk_paths(f, start_bb, atom_of, asg, stop)
-            results = []
-            for end, visited in paths:
-                if end is None:
-                    continue
-                results.append([(bb, f.term(bb)) for bb in visited if f.term(bb)["t"] == "call"])
-            return results
-        rowsB = {}
-        for te in (None, "Identity", "Chunked"):
-            hcs = walk_te(hb[0], {wm[0]}, te)
-            bcs = walk_te(bbody[0], set(f.returns()), te)
-            ctx.paths += len(hcs) + len(bcs)
-            ok = bool(hcs) and bool(bcs)
-            shown = None
-            for hc in hcs:
-                pushes = []
-                for bb2, t in hc:
-                    if call_matches(t, r"Vec::<T(, A)?>::push$") and "headers" in arg_origin_fields(f, t):
-                        o = f.origin(t["args"][1])
-                        fb = [x for x in origin_calls(o) if x[1].endswith("common::Header::from_bytes")]
-                        names = []
-                        if fb:
-                            for a in fb[0][2]:
-                                cs = [x[1] for x in origin_walk(a) if x[0] == "const" and isinstance(x[1], bytes)]
-                                names.append(cs[0] if len(cs) == 1 else None)
-                        pushes.append((names, o))
-                shown = [p[0] for p in pushes]
-                if te == "Chunked":
-                    ok = ok and [p[0] for p in pushes] == [[b"Transfer-Encoding", b"chunked"]]
-                elif te == "Identity":
-                    okh = len(pushes) == 1 and pushes[0][0][:1] == [b"Content-Length"]
-                    if okh:
-                        o = pushes[0][1]
-                        tpl_ok = any(x[0] == "const" and isinstance(x[1], bytes) and decode_template(x[1]) == ["ARG"] for x in origin_walk(o))
-                        disp = [x for x in origin_calls(o) if re.search(r"Argument::<'\w+>::new_display", x[1])]
-                        okh = tpl_ok and len(disp) == 1 and origin_has_call(disp[0][2][0], r"Option::<T>::unwrap$")
-                    ok = ok and okh
+        ctx.paths += len(ps)
+        if not ps:
+            bad1.append((status, dlen, dns, te, up, "no path"))
+            continue
+        suppressed = dns or (100 <= status <= 199) or status in (204, 304)
+        coding = None if up else te
+        if not suppressed and coding == "Identity" and dlen is None and not any(M.summary(p)["copies"] for p in ps):
+            bad1.append((status, dlen, dns, te, up, "body not sent"))
+        for p in ps:
+            S = M.summary(p)
+            if not S["ok"]:
+                continue       # an I/O error return
+            names = [n for i, n, v in S["headers"]]
+            # ---- C04.1 suppression
+            if suppressed and (S["copies"] or S["encoders"]):
+                bad1.append((status, dlen, dns, te, up, "body bytes or chunk framing although the body is suppressed"))
+            if not suppressed:
+                # (a buffered body of unknown length may turn out to be empty: then there is nothing to copy)
+                want_copy = (coding == "Chunked") or (coding == "Identity" and dlen is not None and dlen >= 1)
+                if want_copy and not S["copies"]:
+                    bad1.append((status, dlen, dns, te, up, "body not sent"))
+                if coding is None and S["copies"]:
+                    bad1.append((status, dlen, dns, te, up, "body sent without a framing"))
+            # ---- C04.2 framing header agrees with the body transfer
+            has_te = b"Transfer-Encoding" in names
+            has_cl = b"Content-Length" in names
+            if coding == "Chunked":
+                if not has_te or has_cl:
+                    bad2.append((status, dlen, dns, te, up, "framing headers %s" % names))
+                if not suppressed and len(S["encoders"]) != 1:
+                    bad2.append((status, dlen, dns, te, up, "%d chunk encoders" % len(S["encoders"])))
+                if not suppressed and S["encoders"] and not any(absint.contains(a, S["encoders"][0][1]) or absint.mentions_call(a, S["encoders"][0][1]) for c in S["copies"] for a in c[1]):
+                    bad2.append((status, dlen, dns, te, up, "the body is not copied into the chunk encoder"))
+            elif coding == "Identity":
+                if has_te or not has_cl:
+                    bad2.append((status, dlen, dns, te, up, "framing headers %s" % names))
+                if S["encoders"]:
+                    bad2.append((status, dlen, dns, te, up, "identity coding with a chunk encoder"))
+            else:
+                if has_te or has_cl:
+                    bad2.append((status, dlen, dns, te, up, "upgrade response with framing headers %s" % names))
+            # ---- C04.3 undeclared length + identity: buffer, then measure
+            if coding == "Identity" and dlen is None:
+                if not S["buffered"]:
+                    bad3.append((status, dlen, dns, te, up, "length unknown and not buffered"))
                 else:
-                    ok = ok and pushes == []
-            for bc in bcs:
-                body = sorted({("encoder" if call_matches(t, r"chunked_transfer::Encoder::<W>::new$") else "copy") for bb2, t in bc
-                               if call_matches(t, r"chunked_transfer::Encoder::<W>::new$|^std::io::copy")})
-                want = {"Chunked": ["copy", "encoder"], "Identity": ["copy"], None: []}[te]
-                # (an identity body of length 0 may skip the copy)
-                ok = ok and (body == want or (te == "Identity" and body == []))
-            if te == "Identity":
-                ok = ok and any(sorted({"copy" for bb2, t in bc if call_matches(t, r"^std::io::copy")}) == ["copy"] for bc in bcs)
-            ctx.ob("C04.2", "%s|framing|%s" % (f.id, te), "coding %s: framing header and body transfer agree on every path (%s)" % (
-                te, {"Chunked": "`Transfer-Encoding: chunked` + chunk encoder", "Identity": "`Content-Length: <len>` + plain copy", None: "no framing header, no body"}[te]),
-                ok, f.loc(hb[0]), "framing headers pushed: %s (%d header paths, %d body paths)" % (shown, len(hcs), len(bcs)))
-    # upgrade => transfer_encoding = None before the header match
-    ups = []
-    for bb in sorted(f.live_blocks()):
-        sw = switch_on_discr(f, bb)
-        if sw and not f.blocks[bb]["cleanup"] and sw[0].get("adt") == "std::option::Option" and f.origin_place(sw[0]["pl"]) == ("arg", 6):
-            rv, m, otherwise, rest = sw
-            ups.append(m.get("Some", otherwise if "Some" in rest else None))
-    ok = False
-    if ups and hdr_sw:
-        te_l = max(hdr_sw, key=lambda x: len(dom[x[0]]))[1][0]["pl"]["l"]
-        sets = [bb for bb, i, s in f.assigns() if s["lhs"] == {"l": te_l, "p": []} and f.origin(s["rhs"]["op"] if s["rhs"]["rv"] == "use" else {"k": "x"})[0:1] == ("agg",)
-                and f.origin(s["rhs"]["op"])[4] == "None"] if True else []
-        reach = f.reach([ups[0]], blocked=set(sets), unwind=False)
-        ok = bool(sets) and max(hdr_sw, key=lambda x: len(dom[x[0]]))[0] not in reach
-    ctx.ob("C04.2", "%s|upgrade-clears-coding" % f.id, "a protocol-upgrade response carries neither Content-Length nor Transfer-Encoding (the coding is cleared before the headers are prepared)", ok, "%s:%d" % (f.file, f.line))
+                    cl = [v for i, n, v in S["headers"] if n == b"Content-Length"]
+                    buf = S.get("buffer_args", [None, None])[1]
+                    lens = [x for x in absint.walk_terms(cl[0]) if x and x[0] == "call" and re.search(r"Vec::<T(, A)?>::len$", x[1])] if cl else []
+                    if not lens:
+                        bad3.append((status, dlen, dns, te, up, "the announced length is not the length of the buffered body"))
+                    if S["head"] is not None and not any(True for e in p.events[:S["head"]] if e[1] == "call" and (e[6] or "") == "std::io::Read::read_to_end"):
+                        bad3.append((status, dlen, dns, te, up, "buffered after the head was written"))
+            elif S["buffered"] and dlen is not None:
+                bad3.append((status, dlen, dns, te, up, "a body of declared length is buffered"))
+            # ---- head before body; one head
+            if S["head"] is None:
+                bad_order.append((status, dlen, dns, te, up, "no head written"))
+            elif any(i < S["head"] for i, a in S["copies"]) or any(i < S["head"] for i, v in S["encoders"]):
+                bad_order.append((status, dlen, dns, te, up, "body bytes before the head"))
+            elif any(i > S["head"] for i, n, v in S["headers"]):
+                bad_order.append((status, dlen, dns, te, up, "a header added after the head was written"))
+            # ---- C04.5 encoder finished
+            if S["encoders"] and not any(d > S["encoders"][0][0] for d in S["enc_drops"]):
+                bad5.append((status, dlen, dns, te, up, "chunk encoder not finished before raw_print returns"))
+    ctx.counts["C04 grid rows"] = rows
+    ctx.ob("C04.1", "%s|suppression-table" % raw_print.id, "body bytes and chunk framing are produced exactly when the body is not suppressed; it is suppressed exactly for: the caller's request (HEAD), status 100..=199, 204, 304",
+           not bad1, where, None if not bad1 else str(bad1[:4]))
+    for te in ("Chunked", "Identity", None):
+        bb_ = [x for x in bad2 if (None if x[4] else x[3]) == te]
+        ctx.ob("C04.2", "%s|framing|%s" % (raw_print.id, te), "coding %s: framing header and body transfer agree on every path (%s)" % (
+            te, {"Chunked": "`Transfer-Encoding: chunked` + chunk encoder", "Identity": "`Content-Length: <len>` + plain copy", None: "upgrade: no framing header, no body"}[te]),
+            not bb_, where, None if not bb_ else str(bb_[:4]))
+    ctx.ob("C04.3", "%s|length-of-buffered-body" % raw_print.id, "an undeclared-length body sent with identity coding is read to its end before the head is written, and the Content-Length announced is the length of that buffer",
+           not bad3, where, None if not bad3 else str(bad3[:4]))
+    ctx.ob("C04.4", "%s|head-before-body" % raw_print.id, "the head is written exactly once, after every header was added and before any body byte", not bad_order, where, None if not bad_order else str(bad_order[:4]))
+    ctx.ob("C04.5", "%s|encoder-finished" % raw_print.id, "the chunk encoder is dropped (writing the last-chunk) before raw_print returns, on every path", not bad5, where, None if not bad5 else str(bad5[:4]))
+    # Content-Length value: the declared length
+    ps = M.run(200, 7, False, "Identity", False)
+    okv = False
+    for p in ps:
+        S = M.summary(p)
+        for i, n, v in S["headers"]:
+            if n == b"Content-Length" and v is not None:
+                okv = any(x and x[0] == "const" and x[1] == 7 for x in absint.walk_terms(v))
+    ctx.ob("C04.2", "%s|content-length-is-declared-length" % raw_print.id, "the Content-Length announced for a body of declared length is that length", okv, where)
+    # the head carries this response's status and header list
+    okh = False
+    for p in ps:
+        S = M.summary(p)
+        if S.get("head_args"):
+            txt = [absint.deep(p.state, a) for a in S["head_args"]]
+            okh = any(any(x and x[0] == "const" and x[1] == 200 for x in absint.walk_terms(a)) or absint.contains(a, ("init", (1, "." + M.status_f))) for a in txt)
+    ctx.ob("C04.4", "%s|head-uses-own-status-and-headers" % raw_print.id, "the head carries this response's status", okh, where)
 
-    # ---- C04.3 undeclared length + identity: buffer, then measure
-    rte = f.call_blocks(lambda t: t.get("callee") == "std::io::Read::read_to_end")
-    ctx.ob("C04.3", "%s|buffers-unknown-length" % f.id, "(anchor) an undeclared-length body sent with identity coding is read to its end first", len(rte) == 1, "%s:%d" % (f.file, f.line), nontrivial=False)
-    if rte:
-        ok1 = f.dominates(rte[0], wm[0], unwind=False) or wm[0] in f.reach([rte[0]], unwind=False)
-        lens = [(bb, t) for bb, t in f.calls() if call_matches(t, r"Vec::<T(, A)?>::len$") and bb in f.reach([rte[0]], unwind=False)]
-        curs = [(bb, t) for bb, t in f.calls() if call_matches(t, r"std::io::Cursor::<T>::new$") and bb in f.reach([rte[0]], unwind=False)]
-        ok2 = False
-        if lens and curs:
-            buf_of_read = shared.backward_slice_locals(f, [op_local(f.term(rte[0])["args"][1])])
-            buf_of_len = shared.backward_slice_locals(f, [op_local(lens[0][1]["args"][0])])
-            buf_of_cur = shared.backward_slice_locals(f, [op_local(curs[0][1]["args"][0])])
-            common = (buf_of_read & buf_of_len & buf_of_cur)
-            ok2 = any("std::vec::Vec<u8>" == f.local_ty(l) for l in common)
-        ctx.ob("C04.3", "%s|length-of-buffered-body" % f.id, "the Content-Length announced is the length of the very buffer that is then sent", ok1 and ok2, f.loc(rte[0]))
-        ctx.ob("C04.3", "%s|buffer-before-head" % f.id, "buffering happens before the head is written", wm[0] not in f.reach([0], blocked=set(), unwind=False) or f.path([0], [rte[0]], blocked={wm[0]}, unwind=False) is not None, f.loc(rte[0]))
+    # respond passes `method == Head` as do_not_send_body
+    RM = RR.rmodel(facts)
+    respond = RM.methods["respond"]
+    METHF = [x["name"] for x in facts.adt(REQ)["variants"][0]["fields"] if x["ty"] == METHOD]
+    okhd = False
+    detail = None
+    if len(METHF) == 1:
+        res = {}
+        for meth in ("Head", "Get"):
+            fr, ps2 = RM.run(respond, extra={(2,): RR.RESPONSE, RM.key(RM.self_base(respond), (METHF[0],)): ("agg", METHOD, meth, {})},
+                             on_call=lambda bb, t, args, st: method_eq(bb, t, args, st))
+            vals = set()
+            for p in ps2:
+                for i, e in RM.prints(p):
+                    a = e[3][4] if len(e[3]) > 4 else None
+                    vals.add(absint.const_of(a) if a is not None else None)
+            res[meth] = vals
+        okhd = res.get("Head") == {True} and res.get("Get") == {False}
+        detail = str(res)
+    ctx.ob("C04.1", "%s|head-suppresses" % respond.id, "answering a HEAD request suppresses the body (and only that)", okhd, "%s:%d" % (respond.file, respond.line), detail)
 
     # ---- C04.4 head templates; head before body
     g = wmh
@@ -343,22 +230,21 @@ def run(ctx):
     oks = [bb for bb, i, s in g.assigns() if s["lhs"] == {"l": 0, "p": []} and s["rhs"].get("variant") == "Ok"]
     ok = len(finals) == 1 and oks and all(g.dominates(finals[0], o, unwind=False) for o in oks)
     ctx.ob("C04.4", "%s|blank-line-always" % g.id, "every successfully written head ends with the blank line", ok, g.file)
-    ok = all(f.dominates(wm[0], c, unwind=False) for c in copies)
-    ctx.ob("C04.4", "%s|head-before-body" % f.id, "the head is written before any body byte", ok, f.loc(wm[0]))
-    t = f.term(wm[0])
-    o_st, o_hdrs = f.origin(t["args"][2]), f.origin(t["args"][3])
-    ctx.ob("C04.4", "%s|head-uses-own-status-and-headers" % f.id, "the head carries this response's status and header list", "status_code" in origin_fields(o_st) and "headers" in origin_fields(o_hdrs), f.loc(wm[0]))
-
-    # ---- C04.5 encoder finished; flush
-    encs = [(bb, t) for bb, t in f.calls() if call_matches(t, r"chunked_transfer::Encoder::<W>::new$")]
-    for i, (bb, t) in enumerate(encs):
-        l = t["dest"]["l"]
-        dropbbs = {b2 for b2, t2 in f.drops() if not t2["pl"]["p"] and t2["pl"]["l"] == l}
-        reach = f.reach([t["target"]], blocked=dropbbs, unwind=False)
-        moved = [b2 for b2, t2 in f.calls() for a in t2["args"] if a["k"] == "move" and op_local(a) == l]
-        ok = bool(dropbbs) and not any(r in reach for r in f.returns()) and not moved
-        ctx.ob("C04.5", "%s|encoder-finished|%d" % (f.id, i), "the chunk encoder is dropped (writing the last-chunk) before raw_print returns, on every path", ok, f.loc(bb))
-    g = respond_impl
-    fl = g.call_blocks(lambda t: t.get("callee") == "std::io::Write::flush")
-    ctx.ob("C04.5", "%s|flushes" % g.id, "respond_impl flushes the writer after printing (checked in detail under C01.8)", bool(fl), "%s:%d" % (g.file, g.line))
     return {}
+
+
+def method_eq(bb, t, args, st):
+    """model of `<Method as PartialEq>::eq` on two known unit variants"""
+    n = call_name(t)
+    if re.search(r"common::Method as std::cmp::PartialEq>::(eq|ne)$", n) and len(args) == 2:
+        def val(a):
+            if a[0] == "ref":
+                return st.read_key(a[1])
+            if a[0] == "constref":
+                return a[1]
+            return a
+        a, b = val(args[0]), val(args[1])
+        if a[0] == "agg" and b[0] == "agg" and a[1] == b[1] == METHOD and not a[3] and not b[3]:
+            r = (a[2] == b[2]) != n.endswith("::ne")
+            return ("const", r, str(r).lower(), None)
+    return None
